@@ -260,7 +260,9 @@ def install(lib, np_):
         for s_ in sts[1:]:
           cx.may_raise('ValueError', s_.shape.dims[0] != n, 'column_stack length mismatch')
         term = TH.cstack2(sts[0].term, sts[1].term) if len(sts) == 2 and all(s_.term is not None for s_ in sts) else None
-        return cx.new(term, [n, len(arrs)], promote(*[s_.kind for s_ in sts]))
+        res = cx.new(term, [n, len(arrs)], promote(*[s_.kind for s_ in sts]))
+        cx.p.store[res.loc] = cx.p.store[res.loc].replace(tag=('cstack', tuple(a_.loc for a_ in arrs)))
+        return res
       if all(s_.shape.rank == 2 for s_ in sts):
         n = sts[0].shape.dims[0]
         tot = sts[0].shape.dims[1]
